@@ -351,8 +351,14 @@ func ZZ_C15_OracleRoundTrip() {
 	E := 1 + vrt.Uint64Below("epoch", 1<<56)
 	k.setCurrentEpoch(ctx, E)
 	k.SetParams(ctx, *types.DefaultParams())
-	k.storePrices(ctx, zzPriceList(vrt.IntRange("price", big.NewInt(1), big.NewInt(1<<40))))
-	k.storeHolders(ctx, zzHolders(0))
+	// prices and holders are attested independently: either may exist without the other
+	havePrices, haveHolders := vrt.Bool("have.prices"), vrt.Bool("have.holders")
+	if havePrices {
+		k.storePrices(ctx, zzPriceList(vrt.IntRange("price", big.NewInt(1), big.NewInt(1<<40))))
+	}
+	if haveHolders {
+		k.storeHolders(ctx, zzHolders(0))
+	}
 	var gs types.GenesisState
 	if vrt.Panics(func() { gs = ExportGenesis(ctx, k) }) {
 		vrt.Assert("c15.oracle.export.no-panic", false)
@@ -366,6 +372,15 @@ func ZZ_C15_OracleRoundTrip() {
 	vrt.Reach("c15.oracle.roundtrip")
 	vrt.Check("c15.oracle.preserved[epoch]", b.k.GetCurrentEpoch(b.ctx) == E)
 	pa, pb := k.GetPrices(ctx), b.k.GetPrices(b.ctx)
-	vrt.Check("c15.oracle.preserved[prices]", pb != nil && len(pa.List) == len(pb.List) && pa.List[0].Value.Equal(pb.List[0].Value))
-	vrt.Check("c15.oracle.preserved[holders]", zzSameHolders(k.GetHolders(ctx), b.k.GetHolders(b.ctx)))
+	if havePrices {
+		vrt.Check("c15.oracle.preserved[prices]", pb != nil && len(pa.List) == len(pb.List) && pa.List[0].Value.Equal(pb.List[0].Value))
+	} else {
+		vrt.Check("c15.oracle.preserved[no prices]", pb == nil || len(pb.List) == 0)
+	}
+	ha, hb := k.GetHolders(ctx), b.k.GetHolders(b.ctx)
+	if haveHolders {
+		vrt.Check("c15.oracle.preserved[holders]", zzSameHolders(ha, hb))
+	} else {
+		vrt.Check("c15.oracle.preserved[no holders]", hb == nil || len(hb.List) == 0)
+	}
 }
